@@ -79,8 +79,16 @@ def check_ops(ctx, name, layout, ops, base):
 
         with warnings.catch_warnings():
             warnings.simplefilter("ignore")
-            pop = Population.from_swc(root)
+            try:
+                pop = Population.from_swc(root)
+            except Exception as e:  # building a population over any layout of the quantifier must not fail
+                ctx.violation("Population.from_swc", "operation-raises", spec, f"{type(e).__name__}: {e}", "no exception", spec)
+                return
         files = list(pop.trees.swcs)
+        listed = sorted(os.path.relpath(f, root) for f in files)
+        if listed != sorted(k for k in layout if k.endswith(".swc")):
+            ctx.violation("Population.find_swcs", "exactly-the-names-with-the-extension-are-listed", spec, listed, sorted(k for k in layout if k.endswith(".swc")), spec)
+            return
         if len(pop) != nfiles:
             ctx.violation("Population.__len__", "number-of-files", spec, len(pop), nfiles, spec)
         probe = dict(rc.reads)
@@ -235,6 +243,60 @@ def check_map(ctx, base):
     ctx.case("map", dict(files=3))
 
 
+def check_filter(ctx, base):
+    """filter_population keeps exactly the trees satisfying the predicate, in order, and reads no file twice"""
+    from swcgeom.core.population import Population, filter_population
+
+    import warnings
+
+    root = os.path.join(base, "flt")
+    layout = {"a.swc": 2, "b.swc": 3, "sub/c.swc": 4, "sub/d.swc": 5, "e.swc": 2}
+    _build(root, layout)
+    for name, pred in (("even", lambda t: t.number_of_nodes() % 2 == 0), ("none", lambda t: False), ("all", lambda t: True), ("big", lambda t: t.number_of_nodes() > 3)):
+        spec = dict(kind="filter", predicate=name)
+        with ReadCounter() as rc, warnings.catch_warnings():
+            warnings.simplefilter("ignore")
+            pop = Population.from_swc(root)
+            files = list(pop.trees.swcs)
+            want = [f for f in files if pred(pop[files.index(f)])]
+            try:
+                sub = filter_population(pop, pred)
+                got = [sub[k].source for k in range(len(sub))]
+                if [os.path.abspath(g) for g in got] != [os.path.abspath(w) for w in want] or sub.root != pop.root:
+                    ctx.violation("filter_population", "keeps-exactly-the-trees-satisfying-the-predicate-in-order", spec, got, want, spec)
+            except Exception as e:
+                ctx.violation("filter_population", "operation-raises", spec, f"{type(e).__name__}: {e}", "no exception", spec)
+            bad = {f: c for f, c in rc.reads.items() if c > 1}
+            if bad:
+                ctx.violation("filter_population", "each-file-read-at-most-once", spec, bad, "each file read at most once", spec)
+        ctx.case("filter", dict(predicate=name))
+
+
+def check_same(ctx, base):
+    """Populations.from_swc(..., intersect=False, check_same=True): directories that do not hold the same relative paths must be
+    rejected (AssertionError); if the call is accepted, every row holds same-named files"""
+    from swcgeom.core.population import Populations
+
+    import warnings
+
+    for name, la, lb in (("different-sets", {"x.swc": 2, "y.swc": 3}, {"x.swc": 2, "only_b.swc": 3}), ("same-sets", {"x.swc": 2, "sub/y.swc": 3}, {"x.swc": 4, "sub/y.swc": 5})):
+        ra, rb = os.path.join(base, "csa_" + name), os.path.join(base, "csb_" + name)
+        _build(ra, la)
+        _build(rb, lb)
+        spec = dict(kind="check_same", layout=name)
+        with warnings.catch_warnings():
+            warnings.simplefilter("ignore")
+            try:
+                ps = Populations.from_swc([ra, rb], intersect=False, check_same=True)
+                rows = [[os.path.relpath(t.source, r) for t, r in zip(ps[i], (ra, rb))] for i in range(len(ps))]
+                if sorted(la) != sorted(lb) and any(len(set(r)) != 1 for r in rows):  # (listing order may differ between equal directories)
+                    ctx.violation("Populations.from_swc", "check_same:accepted-only-if-every-root-lists-the-same-relative-paths", spec, rows, "AssertionError, or rows of same-named files", spec)
+            except AssertionError:
+                if sorted(la) == sorted(lb):
+                    ctx.violation("Populations.from_swc", "check_same:same-sets-rejected", spec, "AssertionError", "accepted", spec)
+        ctx.case("check_same", dict(layout=name))
+
+
 def run(ctx):
     base = scratch_dir("c19")
     try:
@@ -255,8 +317,11 @@ def run(ctx):
             check_chain(ctx, sizes, base)
         check_populations(ctx, base)
         check_map(ctx, base)
+        check_filter(ctx, base)
+        check_same(ctx, base)
         ctx.rule("directory layouts {flat, nested, single, empty, mixed} x operation sequences (all of length<=1, sampled length 2.." + str(depth) +
                  ") with a Tree.from_swc call counter; chains of 2-3 populations with 0-3 members; two-directory intersection; map with 2 workers. "
+                 "filter_population with 4 predicates; check_same on equal / different directory pairs. "
                  "Non-trivial = layout with >=1 file and >=1 operation", exhaustive=False)
     finally:
         shutil.rmtree(base, ignore_errors=True)
@@ -286,6 +351,10 @@ def replay(spec):
             check_populations(c, base)
         elif spec["kind"] == "map":
             check_map(c, base)
+        elif spec["kind"] == "filter":
+            check_filter(c, base)
+        elif spec["kind"] == "check_same":
+            check_same(c, base)
     finally:
         shutil.rmtree(base, ignore_errors=True)
     for v in c.v:
